@@ -412,4 +412,648 @@ example : (childWithDescendant C02.demoLang 3 pvRoot pvB.id pvB.startByte pvB.en
   decide
 
 
+/-! ### `ts_node__next_sibling` -/
+
+/-- The child scan of `ts_node__next_sibling(self, true)` for a non-empty `self`. -/
+abbrev nsScan (lang : Lang) (self : NodeRef) := nextSiblingPort.scan lang self true self.endByte self.startByte false
+abbrev nsGo (lang : Lang) (self : NodeRef) := nextSiblingPort.go lang self true self.endByte self.startByte false
+
+theorem nsScan_nil (lang : Lang) (self : NodeRef) (cct : Option NodeRef) : nsScan lang self [] cct = (cct, none) := rfl
+
+theorem nsScan_cons (lang : Lang) (self : NodeRef) (rc : RawChild) (rest : List RawChild) (cct : Option NodeRef) :
+    nsScan lang self (rc :: rest) cct =
+      (if rc.posAfter.bytes ≤ self.endByte then nsScan lang self rest cct
+       else if rc.node.startByte ≤ self.startByte then nsScan lang self rest (if samePtr rc.node self then cct else some rc.node)
+       else if rc.node.relevant lang true then (cct, some (rc.node, true))
+       else if rc.node.childCount > 0 then (cct, some (rc.node, false))
+       else nsScan lang self rest cct) := by
+  simp only [nsScan, nextSiblingPort.scan, samePtr, NodeRef.relChildCount, relevantChildCount, NodeRef.childCount,
+    Bool.false_eq_true, if_false, decide_eq_true_eq, if_true]
+  rfl
+
+/-- Children that end at or before the end of `self` are passed over. -/
+theorem nsScan_skip (lang : Lang) (self : NodeRef) (cct : Option NodeRef) :
+    ∀ (k : Nat) (L : List RawChild), (∀ i ri, i < k → L[i]? = some ri → ri.posAfter.bytes ≤ self.endByte) →
+    nsScan lang self L cct = nsScan lang self (L.drop k) cct
+  | 0, _, _ => by simp
+  | k + 1, [], _ => by simp
+  | k + 1, r0 :: rest, h => by
+    have h0 := h 0 r0 (by omega) (by simp)
+    rw [nsScan_cons]
+    simp only [h0, if_true, List.drop_succ_cons]
+    exact nsScan_skip lang self cct k rest (fun i ri hi hri => h (i + 1) ri (by omega) (by simpa using hri))
+
+/-- First child that is relevant (`true`) or hidden with visible children (`false`). -/
+def firstLaterRef (lang : Lang) : List RawChild → Option (NodeRef × Bool)
+  | [] => none
+  | rc :: rest =>
+    if rc.node.relevant lang true then some (rc.node, true)
+    else if rc.node.childCount > 0 then some (rc.node, false)
+    else firstLaterRef lang rest
+
+/-- Over children that all lie after `self` (and are not skipped), the scan is `firstLaterRef`. -/
+theorem nsScan_later (lang : Lang) (self : NodeRef) (cct : Option NodeRef) :
+    ∀ (L : List RawChild), (∀ rc ∈ L, self.endByte < rc.posAfter.bytes ∧ self.startByte < rc.node.startByte) →
+    nsScan lang self L cct = (cct, firstLaterRef lang L)
+  | [], _ => rfl
+  | rc :: rest, h => by
+    have h0 := h rc (by simp)
+    rw [nsScan_cons, firstLaterRef]
+    have h1 : ¬ (rc.posAfter.bytes ≤ self.endByte) := by omega
+    have h2 : ¬ (rc.node.startByte ≤ self.startByte) := by omega
+    simp only [h1, h2, if_false]
+    split
+    · rfl
+    · split
+      · rfl
+      · exact nsScan_later lang self cct rest (fun r hr => h r (by simp [hr]))
+
+/-- The rest of the iteration after element `j`. -/
+theorem go_drop (lang : Lang) (n : NodeRef) (pid nk : Nat) : ∀ (kids : List Tree) (pos : Length) (si k j : Nat) (rc : RawChild),
+    (rawChildren.go lang n pid nk kids pos si k)[j]? = some rc →
+    (rawChildren.go lang n pid nk kids pos si k).drop (j + 1) =
+      rawChildren.go lang n pid nk (kids.drop (j + 1)) rc.posAfter (if rc.node.t.data.extra then rc.si else rc.si + 1) (rc.k + 1)
+  | [], _, _, _, _, _, h => by simp [rawChildren.go] at h
+  | c :: rest, pos, si, k, j, rc, h => by
+    rw [go_getElem_zero] at h ⊢
+    cases j with
+    | zero =>
+      simp only [List.getElem?_cons_zero, Option.some.injEq] at h
+      subst h
+      simp
+    | succ j' =>
+      simp only [List.getElem?_cons_succ] at h
+      simpa using go_drop lang n pid nk rest _ _ _ j' rc h
+
+/-- `firstLaterRef` over the iterator's elements is `firstRel` over the raw children. -/
+theorem firstLaterRef_go (lang : Lang) (n : NodeRef) (nk : Nat) : ∀ (kids : List Tree) (pos : Length) (si k : Nat),
+    (firstLaterRef lang (rawChildren.go lang n n.t.data.productionId nk kids pos si k)).map (fun r => (r.1.t, r.1.alias, r.2)) =
+      (firstRel lang n.t.data.productionId kids si).map
+        (fun r => (r.1, (if r.1.data.extra then 0 else lang.aliasAt n.t.data.productionId r.2.1), r.2.2))
+  | [], _, _, _ => by simp [rawChildren.go, firstLaterRef, firstRel]
+  | c :: rest, pos, si, k => by
+    rw [go_getElem_zero, firstLaterRef, firstRel]
+    simp only [NodeRef.relevant, isRelevant, if_true, NodeRef.childCount]
+    have hcond : (c.data.visible || (if c.data.extra then 0 else lang.aliasAt n.t.data.productionId si) != 0) =
+        (c.data.visible || (!c.data.extra && lang.aliasAt n.t.data.productionId si != 0)) := by
+      by_cases hx : c.data.extra = true <;> simp [hx]
+    simp only [hcond]
+    by_cases hvis : (c.data.visible || (!c.data.extra && lang.aliasAt n.t.data.productionId si != 0)) = true
+    · simp [hvis]
+    · have hvis' : (c.data.visible || (!c.data.extra && lang.aliasAt n.t.data.productionId si != 0)) = false := by simpa using hvis
+      simp only [hvis', Bool.false_eq_true, if_false]
+      have hv : (if c.kids.length > 0 then c.data.visibleChildCount else 0) = vcc c := by
+        unfold vcc
+        cases hk : c.kids <;> simp
+      rw [hv]
+      by_cases hk : vcc c > 0
+      · simp [hk]
+      · simp only [hk, if_false]
+        exact firstLaterRef_go lang n nk rest _ _ _
+
+
+/-- What one round of the outer loop does with the result of the child scan. -/
+def nsNext (lang : Lang) (self : NodeRef) (f : Nat) (later : Option (NodeRef × Bool)) :
+    Option NodeRef → Option (NodeRef × Bool) → Option NodeRef
+  | some c, laterChild => nsGo lang self f (some c) (match laterChild with | some l => some l | none => later)
+  | none, some (lc, true) => some lc
+  | none, some (lc, false) => nsGo lang self f (some lc) later
+  | none, none =>
+    match later with
+    | some (ln, true) => some ln
+    | some (ln, false) => nsGo lang self f (some ln) later
+    | none => none
+
+theorem nsGo_succ (lang : Lang) (self : NodeRef) (f : Nat) (node : NodeRef) (later : Option (NodeRef × Bool))
+    (cct : Option NodeRef) (lch : Option (NodeRef × Bool)) (h : nsScan lang self (rawChildren lang node) none = (cct, lch)) :
+    nsGo lang self (f + 1) (some node) later = nsNext lang self f later cct lch := by
+  simp only [nsGo, nextSiblingPort.go]
+  simp only [nsScan] at h
+  rw [h]
+  cases cct with
+  | some c => rfl
+  | none =>
+    cases lch with
+    | none => rfl
+    | some l => obtain ⟨lc, b⟩ := l; cases b <;> rfl
+
+/-- `endsAfterL` read on the iterator's elements: each ends after `tgt`, and so does everything
+inside it. -/
+theorem go_after (lang : Lang) (n : NodeRef) (pid nk tgt : Nat) : ∀ (kids : List Tree) (pos : Length) (si k : Nat),
+    endsAfterL tgt kids pos.bytes (decide (k = 0)) = true → ∀ (j : Nat) (r : RawChild),
+    (rawChildren.go lang n pid nk kids pos si k)[j]? = some r →
+    tgt < r.posAfter.bytes ∧ endsAfterL tgt r.node.t.kids r.node.start.bytes true = true
+  | [], _, _, _, _, _, _, h => by simp [rawChildren.go] at h
+  | c :: rest, pos, si, k, ha, j, r, h => by
+    rw [go_getElem_zero] at h
+    unfold endsAfterL at ha
+    simp only [Bool.and_eq_true] at ha
+    cases j with
+    | zero =>
+      simp only [List.getElem?_cons_zero, Option.some.injEq] at h
+      subst h
+      obtain ⟨d, ck⟩ := c
+      have h1 := ha.1
+      unfold endsAfter at h1
+      simp only [Bool.and_eq_true, decide_eq_true_eq, data_mk] at h1
+      simp only [kids_mk, data_mk, length_add_bytes]
+      by_cases hk : k = 0
+      · subst hk; simpa using h1
+      · have hk' : k > 0 := by omega
+        simpa [hk, hk', length_add_bytes] using h1
+    | succ j' =>
+      simp only [List.getElem?_cons_succ] at h
+      refine go_after lang n pid nk tgt rest _ _ (k + 1) ?_ j' r h
+      have h2 := ha.2
+      by_cases hk : k = 0
+      · subst hk; simpa [length_add_bytes] using h2
+      · have hk' : k > 0 := by omega
+        simpa [hk, hk', length_add_bytes] using h2
+
+theorem firstLaterRef_mem (lang : Lang) : ∀ (L : List RawChild) (r : NodeRef) (b : Bool),
+    firstLaterRef lang L = some (r, b) → ∃ rc ∈ L, rc.node = r
+  | [], _, _, h => by simp [firstLaterRef] at h
+  | rc :: rest, r, b, h => by
+    unfold firstLaterRef at h
+    split at h
+    · simp only [Option.some.injEq, Prod.mk.injEq] at h; exact ⟨rc, by simp, h.1⟩
+    · split at h
+      · simp only [Option.some.injEq, Prod.mk.injEq] at h; exact ⟨rc, by simp, h.1⟩
+      · obtain ⟨x, hx, hxr⟩ := firstLaterRef_mem lang rest r b h
+        exact ⟨x, by simp [hx], hxr⟩
+
+/-- Elements of `rawChildren` of a node all of whose raw descendants end after `tgt`. -/
+theorem raw_mem_props (lang : Lang) (n : NodeRef) (tgt : Nat) (rc : RawChild) (h : rc ∈ rawChildren lang n)
+    (hne : endsAfterL tgt n.t.kids n.start.bytes true = true) :
+    n.startByte ≤ rc.node.startByte ∧ tgt < rc.posAfter.bytes ∧ rc.node.t ∈ n.t.kids ∧
+      endsAfterL tgt rc.node.t.kids rc.node.start.bytes true = true := by
+  obtain ⟨j, hj⟩ := List.mem_iff_getElem?.mp h
+  simp only [rawChildren] at hj
+  have he := go_elem lang _ _ _ _ _ _ _ j rc hj
+  have hm : rc.node.t ∈ n.t.kids := List.mem_of_getElem? he.2.2
+  have ha := go_after lang n _ _ tgt _ _ _ 0 (by simpa using hne) j rc hj
+  simp only [NodeRef.startByte]
+  exact ⟨he.1, ha.1, hm, ha.2⟩
+
+/-- Descending into a hidden later node: the search returns its first visible child. -/
+theorem ns_descend (lang : Lang) (self : NodeRef) (later : Option (NodeRef × Bool)) (hself : self.startByte < self.endByte) :
+    ∀ (fuel : Nat) (lc : NodeRef) (ps : Option Nat), lc.t.size ≤ fuel → Summarized lang lc.t → shapeOK ps lc.t = true →
+    endsAfterL self.endByte lc.t.kids lc.start.bytes true = true → self.endByte ≤ lc.startByte → vcc lc.t > 0 →
+    (nsGo lang self fuel (some lc) later).map (fun r => (r.t, r.alias)) = (enumChildren lang lc.t).head?
+  | 0, lc, _, hf, _, _, _, _, _ => by have := tree_size_pos lc.t; omega
+  | f + 1, lc, ps, hf, hs, hsh, hne, hpos, hv => by
+    rw [nsGo_succ lang self f lc later none _ (nsScan_later lang self none (rawChildren lang lc) (by
+      intro rc hrc
+      have := raw_mem_props lang lc self.endByte rc hrc hne
+      simp only [NodeRef.startByte] at this hpos hself ⊢
+      omega))]
+    obtain ⟨t, al, id, st⟩ := lc
+    obtain ⟨d, kids⟩ := t
+    simp only [kids_mk, data_mk, NodeRef.startByte] at *
+    have hmap := firstLaterRef_go lang ⟨.mk d kids, al, id, st⟩ kids.length kids st 0 0
+    simp only [data_mk] at hmap
+    have hraw : rawChildren lang ⟨.mk d kids, al, id, st⟩ = rawChildren.go lang ⟨.mk d kids, al, id, st⟩ d.productionId kids.length kids st 0 0 := by
+      rfl
+    have hcnt := (summarize_counts lang (.mk d kids) ps hs hsh).1
+    unfold Summarized at hs
+    unfold shapeOK at hsh
+    simp only [Bool.and_eq_true] at hsh
+    have hhead := enumKids_head lang kids d.productionId 0 (some d.symbol) hs.2.2 hsh.2
+    have hne' : enumChildren lang (.mk d kids) ≠ [] := by
+      intro h0
+      rw [h0] at hcnt
+      simp only [data_mk, List.length_nil] at hcnt
+      unfold vcc at hv
+      simp only [data_mk, kids_mk] at hv
+      by_cases hke : kids.isEmpty = true <;> simp [hke] at hv <;> omega
+    simp only [enumChildren] at hne' ⊢
+    rw [hhead]
+    cases hfl : firstLaterRef lang (rawChildren lang ⟨.mk d kids, al, id, st⟩) with
+    | none =>
+      rw [hraw] at hfl
+      rw [hfl] at hmap
+      simp only [Option.map_none] at hmap
+      have : firstRel lang d.productionId kids 0 = none := by
+        cases hx : firstRel lang d.productionId kids 0 with
+        | none => rfl
+        | some v => rw [hx] at hmap; simp at hmap
+      rw [this] at hhead
+      simp only at hhead
+      exact absurd (List.head?_eq_none_iff.mp hhead) hne'
+    | some rb =>
+      obtain ⟨r, b⟩ := rb
+      obtain ⟨rc, hrc, hrcn⟩ := firstLaterRef_mem lang _ r b hfl
+      have hp := raw_mem_props lang ⟨.mk d kids, al, id, st⟩ self.endByte rc hrc hne
+      rw [hraw] at hfl
+      rw [hfl] at hmap
+      simp only [Option.map_some] at hmap
+      cases hx : firstRel lang d.productionId kids 0 with
+      | none => rw [hx] at hmap; simp at hmap
+      | some v =>
+        obtain ⟨c, si', b'⟩ := v
+        rw [hx] at hmap
+        simp only [Option.map_some, Option.some.injEq, Prod.mk.injEq] at hmap
+        obtain ⟨h1, h2, h3⟩ := hmap
+        subst h3
+        cases b with
+        | true =>
+          simp only [nsNext, Option.map_some, h1, h2]
+        | false =>
+          simp only [nsNext]
+          have hmem := firstRel_mem lang d.productionId kids 0 c si' false hx
+          have hvc := firstRel_false_vcc lang d.productionId kids 0 c si' hx
+          have := ns_descend lang self later hself f r (some d.symbol)
+            (by rw [h1]; have := sizeList_mem kids c hmem; simp only [Tree.size] at hf; omega)
+            (by rw [h1]; exact summarized_of_mem lang kids c hs.2.2 hmem)
+            (by rw [h1]; exact shapeOK_of_mem kids _ c hsh.2 hmem)
+            (by rw [← hrcn]; exact hp.2.2.2)
+            (by rw [← hrcn]; simp only [NodeRef.startByte] at hp ⊢; omega)
+            (by rw [h1]; exact hvc)
+          rw [this, h1]
+
+
+theorem summarizedL_kids (lang : Lang) (t : Tree) (h : Summarized lang t) : SummarizedL lang t.kids := by
+  obtain ⟨d, k⟩ := t
+  unfold Summarized at h
+  exact h.2.2
+
+theorem shapeOKL_kids (ps : Option Nat) (t : Tree) (h : shapeOK ps t = true) : shapeOKL (some t.data.symbol) t.kids = true := by
+  obtain ⟨d, k⟩ := t
+  unfold shapeOK at h
+  simp only [Bool.and_eq_true] at h
+  exact h.2
+
+theorem enum_ne_nil_of_vcc (lang : Lang) (t : Tree) (ps : Option Nat) (hs : Summarized lang t) (hsh : shapeOK ps t = true)
+    (hv : vcc t > 0) : enumChildren lang t ≠ [] := by
+  have hcnt := (summarize_counts lang t ps hs hsh).1
+  intro h0
+  rw [h0] at hcnt
+  simp only [List.length_nil] at hcnt
+  unfold vcc at hv
+  by_cases hke : t.kids.isEmpty = true <;> simp [hke] at hv <;> omega
+
+/-- What a remembered later node stands for: itself if relevant, its first visible child if hidden. -/
+def resolveLater (lang : Lang) : Option (NodeRef × Bool) → Option (Tree × Nat)
+  | none => none
+  | some (ln, true) => some (ln.t, ln.alias)
+  | some (ln, false) => (enumChildren lang ln.t).head?
+
+/-- A remembered hidden later node can be descended into by `ns_descend`. -/
+def LaterGood (lang : Lang) (self : NodeRef) : Option (NodeRef × Bool) → Prop
+  | some (ln, false) => (∃ ps, shapeOK ps ln.t = true) ∧ Summarized lang ln.t ∧ endsAfterL self.endByte ln.t.kids ln.start.bytes true = true ∧
+      self.endByte ≤ ln.startByte ∧ vcc ln.t > 0
+  | _ => True
+
+def laterNeed : Option (NodeRef × Bool) → Nat
+  | some (ln, false) => ln.t.size
+  | _ => 0
+
+theorem resolve_ne_none (lang : Lang) (self : NodeRef) (l : NodeRef × Bool) (hg : LaterGood lang self (some l)) :
+    resolveLater lang (some l) ≠ none := by
+  obtain ⟨ln, b⟩ := l
+  cases b with
+  | true => simp [resolveLater]
+  | false =>
+    obtain ⟨⟨ps, hsh⟩, hs, _, _, hv⟩ := hg
+    have := enum_ne_nil_of_vcc lang ln.t ps hs hsh hv
+    simp only [resolveLater, ne_eq, List.head?_eq_none_iff]
+    exact this
+
+theorem go_length (lang : Lang) (n : NodeRef) (pid nk : Nat) : ∀ (kids : List Tree) (pos : Length) (si k : Nat),
+    (rawChildren.go lang n pid nk kids pos si k).length = kids.length
+  | [], _, _, _ => by simp [rawChildren.go]
+  | c :: rest, pos, si, k => by rw [go_getElem_zero]; simp [go_length lang n pid nk rest]
+
+/-- The part of the scan after the path's child `rc` (index `k`), when no later raw node is empty. -/
+theorem ns_later_part (lang : Lang) (self n : NodeRef) (k : Nat) (rc : RawChild) (ps : Option Nat)
+    (hk : (rawChildren lang n)[k]? = some rc) (hs : Summarized lang n.t) (hsh : shapeOK ps n.t = true)
+    (hne : endsAfterL self.endByte (n.t.kids.drop (k + 1)) rc.posAfter.bytes false = true) (hend : self.endByte ≤ rc.posAfter.bytes)
+    (hself : self.startByte < self.endByte) :
+    (∀ cct, nsScan lang self ((rawChildren lang n).drop (k + 1)) cct = (cct, firstLaterRef lang ((rawChildren lang n).drop (k + 1)))) ∧
+    resolveLater lang (firstLaterRef lang ((rawChildren lang n).drop (k + 1))) =
+      (enumKids lang n.t.data.productionId (n.t.kids.drop (k + 1)) (if rc.node.t.data.extra then rc.si else rc.si + 1)).head? ∧
+    LaterGood lang self (firstLaterRef lang ((rawChildren lang n).drop (k + 1))) ∧
+    (∀ lc b, firstLaterRef lang ((rawChildren lang n).drop (k + 1)) = some (lc, b) → lc.t ∈ n.t.kids.drop (k + 1)) := by
+  have hk' := hk
+  simp only [rawChildren] at hk'
+  have hdrop := go_drop lang n _ _ _ _ _ _ k rc hk'
+  have hL : (rawChildren lang n).drop (k + 1) =
+      rawChildren.go lang n n.t.data.productionId n.t.kids.length (n.t.kids.drop (k + 1)) rc.posAfter
+        (if rc.node.t.data.extra then rc.si else rc.si + 1) (rc.k + 1) := by
+    simp only [rawChildren]; exact hdrop
+  -- every later element lies after self and is not empty
+  have hel : ∀ r ∈ (rawChildren lang n).drop (k + 1), self.endByte ≤ r.node.startByte ∧ self.endByte < r.posAfter.bytes ∧
+      r.node.t ∈ n.t.kids.drop (k + 1) ∧ endsAfterL self.endByte r.node.t.kids r.node.start.bytes true = true := by
+    intro r hr
+    rw [hL] at hr
+    obtain ⟨j, hj⟩ := List.mem_iff_getElem?.mp hr
+    have he := go_elem lang _ _ _ _ _ _ _ j r hj
+    have hm : r.node.t ∈ n.t.kids.drop (k + 1) := List.mem_of_getElem? he.2.2
+    have ha := go_after lang n _ _ self.endByte _ _ _ (rc.k + 1) (by simpa using hne) j r hj
+    simp only [NodeRef.startByte]
+    exact ⟨by omega, ha.1, hm, ha.2⟩
+  have hscan : ∀ cct, nsScan lang self ((rawChildren lang n).drop (k + 1)) cct =
+      (cct, firstLaterRef lang ((rawChildren lang n).drop (k + 1))) := by
+    intro cct
+    exact nsScan_later lang self cct _ (fun r hr => by have := hel r hr; omega)
+  have hsk := summarizedL_drop lang _ (k + 1) (summarizedL_kids lang n.t hs)
+  have hshk := shapeOKL_drop _ _ (k + 1) (shapeOKL_kids ps n.t hsh)
+  have hhead := enumKids_head lang (n.t.kids.drop (k + 1)) n.t.data.productionId
+    (if rc.node.t.data.extra then rc.si else rc.si + 1) (some n.t.data.symbol) hsk hshk
+  have hmap := firstLaterRef_go lang n n.t.kids.length (n.t.kids.drop (k + 1)) rc.posAfter
+    (if rc.node.t.data.extra then rc.si else rc.si + 1) (rc.k + 1)
+  rw [← hL] at hmap
+  refine ⟨hscan, ?_, ?_, ?_⟩
+  · rw [hhead]
+    cases hfl : firstLaterRef lang ((rawChildren lang n).drop (k + 1)) with
+    | none =>
+      rw [hfl] at hmap
+      cases hx : firstRel lang n.t.data.productionId (n.t.kids.drop (k + 1)) (if rc.node.t.data.extra then rc.si else rc.si + 1) with
+      | none => rfl
+      | some v => rw [hx] at hmap; simp at hmap
+    | some rb =>
+      obtain ⟨r, b⟩ := rb
+      rw [hfl] at hmap
+      cases hx : firstRel lang n.t.data.productionId (n.t.kids.drop (k + 1)) (if rc.node.t.data.extra then rc.si else rc.si + 1) with
+      | none => rw [hx] at hmap; simp at hmap
+      | some v =>
+        obtain ⟨c, si', b'⟩ := v
+        rw [hx] at hmap
+        simp only [Option.map_some, Option.some.injEq, Prod.mk.injEq] at hmap
+        obtain ⟨h1, h2, h3⟩ := hmap
+        subst h3
+        cases b <;> simp [resolveLater, h1, h2]
+  · cases hfl : firstLaterRef lang ((rawChildren lang n).drop (k + 1)) with
+    | none => trivial
+    | some rb =>
+      obtain ⟨r, b⟩ := rb
+      cases b with
+      | true => trivial
+      | false =>
+        obtain ⟨x, hx, hxr⟩ := firstLaterRef_mem lang _ r false hfl
+        have hp := hel x hx
+        rw [hxr] at hp
+        have hmem : r.t ∈ n.t.kids := List.mem_of_mem_drop hp.2.2.1
+        rw [hfl] at hmap
+        cases hfr : firstRel lang n.t.data.productionId (n.t.kids.drop (k + 1)) (if rc.node.t.data.extra then rc.si else rc.si + 1) with
+        | none => rw [hfr] at hmap; simp at hmap
+        | some v =>
+          obtain ⟨c, si', b'⟩ := v
+          rw [hfr] at hmap
+          simp only [Option.map_some, Option.some.injEq, Prod.mk.injEq] at hmap
+          obtain ⟨h1, _, h3⟩ := hmap
+          subst h3
+          have hvc := firstRel_false_vcc lang _ _ _ c si' hfr
+          exact ⟨⟨_, shapeOK_of_mem _ _ r.t (shapeOKL_kids ps n.t hsh) hmem⟩,
+            summarized_of_mem lang _ r.t (summarizedL_kids lang n.t hs) hmem, hp.2.2.2, hp.1, by rw [h1]; exact hvc⟩
+  · intro lc b hfl
+    obtain ⟨x, hx, hxr⟩ := firstLaterRef_mem lang _ lc b hfl
+    have hp := hel x hx
+    rw [hxr] at hp
+    exact hp.2.2.1
+
+
+theorem rawChildren_length (lang : Lang) (n : NodeRef) : (rawChildren lang n).length = n.t.kids.length := by
+  simp only [rawChildren]; exact go_length lang n _ _ _ _ _ _
+
+theorem nodeAt_cons (lang : Lang) (n d : NodeRef) (k : Nat) (rest : List Nat) (h : nodeAt lang n (k :: rest) = some d) :
+    ∃ rc, (rawChildren lang n)[k]? = some rc ∧ nodeAt lang rc.node rest = some d := by
+  simp only [nodeAt, rawChildAt] at h
+  cases hk : (rawChildren lang n)[k]? with
+  | none => simp [hk] at h
+  | some rc => exact ⟨rc, rfl, by simpa [hk] using h⟩
+
+/-- Below a child that ends where `self` ends there is nothing after `self`. -/
+theorem laterOnPath_tight (lang : Lang) (self : NodeRef) : ∀ (q : List Nat) (c : NodeRef), Sized c.t →
+    nodeAt lang c q = some self → c.endByte ≤ self.endByte → nsPathOK lang self c q = true → laterOnPath lang c q = []
+  | [], _, _, _, _, _ => rfl
+  | k :: rest, c, hs, hat, hend, hok => by
+    obtain ⟨rc, hk, hat'⟩ := nodeAt_cons lang c self k rest hat
+    simp only [nsPathOK, hk, Bool.and_eq_true] at hok
+    simp only [laterOnPath, hk]
+    have hn := raw_child_nested lang c hs k rc hk
+    have hd := nodeAt_nested lang rest rc.node self hn.2.2.2 hat'
+    have hnil : c.t.kids.drop (k + 1) = [] := by
+      cases Nat.lt_or_ge (k + 1) c.t.kids.length with
+      | inr h => exact List.drop_eq_nil_of_le h
+      | inl h =>
+        have hlen := rawChildren_length lang c
+        cases hrx : (rawChildren lang c)[k + 1]? with
+        | none => have := List.getElem?_eq_none_iff.mp hrx; omega
+        | some rx =>
+          have hnx := raw_child_nested lang c hs (k + 1) rx hrx
+          have hk2 := hk
+          simp only [rawChildren] at hk2
+          have hdrop := go_drop lang c _ _ _ _ _ _ k rc hk2
+          have hrx0 : ((rawChildren lang c).drop (k + 1))[0]? = some rx := by rw [List.getElem?_drop]; simpa using hrx
+          simp only [rawChildren] at hrx0
+          rw [hdrop] at hrx0
+          have ha := go_after lang c _ _ self.endByte _ _ _ (rc.k + 1) (by simpa using hok.1) 0 rx hrx0
+          simp only [NodeRef.startByte, NodeRef.endByte] at *
+          omega
+    rw [hnil]
+    simp only [enumKids, List.append_nil]
+    cases rest with
+    | nil => rfl
+    | cons k' rest' =>
+      simp only [List.isEmpty_cons, Bool.false_or, Bool.and_eq_true] at hok
+      exact laterOnPath_tight lang self (k' :: rest') rc.node hn.2.2.2 hat' (by omega) hok.2.2
+
+theorem sizeList_two (kids : List Tree) (k : Nat) (c x : Tree) (hk : kids[k]? = some c) (hx : x ∈ kids.drop (k + 1)) :
+    c.size + x.size ≤ Tree.sizeList kids := by
+  induction kids generalizing k with
+  | nil => simp at hk
+  | cons y rest ih =>
+    cases k with
+    | zero =>
+      simp at hk; subst hk
+      simp only [List.drop_succ_cons, List.drop_zero] at hx
+      have := sizeList_mem rest x hx
+      simp only [Tree.sizeList]; omega
+    | succ k' =>
+      have := ih k' (by simpa using hk) (by simpa using hx)
+      simp only [Tree.sizeList]; omega
+
+
+theorem tree_size_kids (t : Tree) : t.size = 1 + Tree.sizeList t.kids := by
+  obtain ⟨d, k⟩ := t; simp [Tree.size, kids_mk]
+
+theorem or_of_ne_none {α : Type} (a b : Option α) (h : a ≠ none) : a.or b = a := by
+  cases a <;> simp_all
+
+/-- The outer loop of `ts_node__next_sibling` along the path `n ⟶ self`. -/
+theorem ns_levels (lang : Lang) (self : NodeRef) (hself : self.startByte < self.endByte) :
+    ∀ (q : List Nat) (f : Nat) (n : NodeRef) (later : Option (NodeRef × Bool)) (ps : Option Nat), q ≠ [] →
+    n.t.size + laterNeed later ≤ f → Summarized lang n.t → shapeOK ps n.t = true → nodeAt lang n q = some self →
+    nsPathOK lang self n q = true → LaterGood lang self later →
+    (nsGo lang self f (some n) later).map (fun r => (r.t, r.alias)) =
+      ((laterOnPath lang n q).head?).or (resolveLater lang later)
+  | [], _, _, _, _, h, _, _, _, _, _, _ => absurd rfl h
+  | k :: rest, 0, n, _, _, _, hf, _, _, _, _, _ => by have := tree_size_pos n.t; omega
+  | k :: rest, f + 1, n, later, ps, _, hf, hs, hsh, hat, hok, hg => by
+    obtain ⟨rc, hk, hat'⟩ := nodeAt_cons lang n self k rest hat
+    have hsz := sized_of_summarized lang n.t hs
+    have hn := raw_child_nested lang n hsz k rc hk
+    have hd := nodeAt_nested lang rest rc.node self hn.2.2.2 hat'
+    simp only [nsPathOK, hk, Bool.and_eq_true] at hok
+    have hlp := ns_later_part lang self n k rc ps hk hs hsh hok.1 (by omega) hself
+    obtain ⟨hscan, hres, hlg, hlmem⟩ := hlp
+    have hk2 := hk
+    simp only [rawChildren] at hk2
+    have hkid := (go_elem lang _ _ _ _ _ _ _ k rc hk2).2.2
+    have hcmem : rc.node.t ∈ n.t.kids := List.mem_of_getElem? hkid
+    have hnsize := tree_size_kids n.t
+    -- the scan: children before k are passed over
+    have hskip : nsScan lang self (rawChildren lang n) none = nsScan lang self (rc :: (rawChildren lang n).drop (k + 1)) none := by
+      rw [nsScan_skip lang self none k (rawChildren lang n) (fun i ri hi hri => by
+        have := raw_ordered lang n i k ri rc hi hri hk; omega), drop_eq_cons _ k rc hk]
+    simp only [laterOnPath, hk, List.head?_append, Option.or_assoc]
+    by_cases htight : rc.posAfter.bytes ≤ self.endByte
+    · -- the path's child ends where self ends: it is passed over, nothing follows self below it
+      have hsc : nsScan lang self (rawChildren lang n) none = (none, firstLaterRef lang ((rawChildren lang n).drop (k + 1))) := by
+        rw [hskip, nsScan_cons]; simp only [htight, if_true]; exact hscan none
+      rw [nsGo_succ lang self f n later none _ hsc]
+      have hA : laterOnPath lang rc.node rest = [] := by
+        cases rest with
+        | nil => rfl
+        | cons k' rest' =>
+          simp only [List.isEmpty_cons, Bool.false_or, Bool.and_eq_true] at hok
+          exact laterOnPath_tight lang self (k' :: rest') rc.node hn.2.2.2 hat' (by omega) hok.2.2
+      rw [hA]
+      simp only [List.head?_nil, Option.none_or]
+      rw [← hres]
+      cases hl : firstLaterRef lang ((rawChildren lang n).drop (k + 1)) with
+      | none =>
+        simp only [resolveLater, Option.none_or, nsNext]
+        cases later with
+        | none => rfl
+        | some l =>
+          obtain ⟨ln, b⟩ := l
+          cases b with
+          | true => rfl
+          | false =>
+            simp only [resolveLater]
+            obtain ⟨⟨ps', hsh'⟩, hs', hne', hpos', hv'⟩ := hg
+            exact ns_descend lang self _ hself f ln ps' (by simp only [laterNeed] at hf; omega) hs' hsh' hne' hpos' hv'
+      | some l =>
+        rw [hl] at hlg
+        have hnn := resolve_ne_none lang self l hlg
+        rw [or_of_ne_none _ _ hnn]
+        obtain ⟨lc, b⟩ := l
+        cases b with
+        | true => rfl
+        | false =>
+          simp only [nsNext, resolveLater]
+          obtain ⟨⟨ps', hsh'⟩, hs', hne', hpos', hv'⟩ := hlg
+          have hm := sizeList_mem _ _ (List.mem_of_mem_drop (hlmem lc false hl))
+          exact ns_descend lang self _ hself f lc ps' (by omega) hs' hsh' hne' hpos' hv'
+    · -- the path's child extends beyond self: it contains the target, the search descends
+      have hrest : rest ≠ [] := by
+        intro h0
+        subst h0
+        simp only [nodeAt, Option.some.injEq] at hat'
+        rw [hat'] at hn
+        omega
+      cases rest with
+      | nil => exact absurd rfl hrest
+      | cons k' rest' =>
+        simp only [List.isEmpty_cons, Bool.false_or, Bool.and_eq_true, Bool.not_eq_true'] at hok
+        have hsc : nsScan lang self (rawChildren lang n) none =
+            (some rc.node, firstLaterRef lang ((rawChildren lang n).drop (k + 1))) := by
+          rw [hskip, nsScan_cons]
+          have h2 : rc.node.startByte ≤ self.startByte := hd.1
+          simp only [htight, if_false, h2, if_true, hok.2.1, Bool.false_eq_true]
+          exact hscan (some rc.node)
+        rw [nsGo_succ lang self f n later (some rc.node) _ hsc]
+        simp only [nsNext]
+        have hsc' := summarized_of_mem lang _ rc.node.t (summarizedL_kids lang n.t hs) hcmem
+        have hshc' := shapeOK_of_mem _ _ rc.node.t (shapeOKL_kids ps n.t hsh) hcmem
+        have hcs := sizeList_mem _ _ hcmem
+        cases hl : firstLaterRef lang ((rawChildren lang n).drop (k + 1)) with
+        | none =>
+          rw [hl] at hres
+          simp only [resolveLater] at hres
+          rw [← hres]
+          simp only [Option.none_or]
+          exact ns_levels lang self hself (k' :: rest') f rc.node later _ (by simp) (by omega) hsc' hshc' hat' hok.2.2 hg
+        | some l =>
+          rw [hl] at hlg hres
+          have hnn := resolve_ne_none lang self l hlg
+          rw [← hres, or_of_ne_none _ (resolveLater lang later) hnn]
+          have hfuel : rc.node.t.size + laterNeed (some l) ≤ f := by
+            obtain ⟨lc, b⟩ := l
+            cases b with
+            | true => simp only [laterNeed]; omega
+            | false =>
+              simp only [laterNeed]
+              have := sizeList_two n.t.kids k rc.node.t lc.t hkid (hlmem lc false hl)
+              omega
+          exact ns_levels lang self hself (k' :: rest') f rc.node (some l) _ (by simp) hfuel hsc' hshc' hat' hok.2.2 hlg
+
+
+/-- **next_sibling_spec_partial.**  Let `P` be what `ts_node_parent(self)` returns (see
+`parent_spec_partial`) and `q ≠ []` a path of raw child indices `P ⟶ self`.  If `self` is NON-EMPTY,
+the subtree of `P` is summarized and parser-shaped, and `nsPathOK` holds (no zero-width raw node
+among the later siblings of `self` and of its ancestors below `P`, nor inside them; no ancestor on the
+path is the same subtree as `self`), then the port of `ts_node_next_sibling(self)` returns the first
+element of `laterOnPath P q` — the visible nodes after `self` among its raw siblings (hidden ones
+replaced by their visible children), then after each ancestor below `P` — and null iff that list is
+empty. -/
+theorem next_sibling_spec_partial (lang : Lang) (fuel : Nat) (root self P : NodeRef) (q : List Nat) (ps : Option Nat)
+    (hpar : nodeParent lang fuel root self = some P) (hq : q ≠ []) (hf : P.t.size ≤ fuel + 1)
+    (hs : Summarized lang P.t) (hsh : shapeOK ps P.t = true) (hat : nodeAt lang P q = some self)
+    (hself : self.startByte < self.endByte) (hok : nsPathOK lang self P q = true) :
+    (nextSiblingPort lang fuel root self true).map (fun r => (r.t, r.alias)) = (laterOnPath lang P q).head? := by
+  unfold nextSiblingPort
+  have he : (self.startByte == self.endByte) = false := by simp; omega
+  simp only [he, hpar]
+  have := ns_levels lang self hself q (fuel + 1) P none ps hq (by simp only [laterNeed]; omega) hs hsh hat hok trivial
+  simpa [resolveLater] using this
+
+
+/-- The same with the parent given by `parent_spec_partial`: everything in terms of paths from the root. -/
+theorem next_sibling_spec_from_root (lang : Lang) (fuel : Nat) (root self : NodeRef) (path q : List Nat) (ps : Option Nat)
+    (hp : path ≠ []) (hfp : path.length ≤ fuel) (hsr : Sized root.t) (hatr : nodeAt lang root path = some self)
+    (hself : self.startByte < self.endByte) (hroot : root.id ≠ self.id) (hokp : pathOK lang self.id root path = true)
+    (hq : q ≠ []) (hf : (parentOnPath lang root root path).t.size ≤ fuel + 1)
+    (hs : Summarized lang (parentOnPath lang root root path).t) (hsh : shapeOK ps (parentOnPath lang root root path).t = true)
+    (hat : nodeAt lang (parentOnPath lang root root path) q = some self)
+    (hok : nsPathOK lang self (parentOnPath lang root root path) q = true) :
+    (nextSiblingPort lang fuel root self true).map (fun r => (r.t, r.alias)) =
+      (laterOnPath lang (parentOnPath lang root root path) q).head? :=
+  next_sibling_spec_partial lang fuel root self _ q ps
+    (parent_spec_partial lang fuel root self path hp hfp hsr hatr hself hroot hokp) hq hf hs hsh hat hself hok
+
+/-! ## Non-vacuity for the sibling theorem -/
+
+theorem leaf_summarized (lang : Lang) (d : NodeData) (h : LeafOK d) : Summarized lang (.mk d []) := by
+  unfold Summarized SummarizedL; exact ⟨fun _ => h, fun h => absurd rfl h, trivial⟩
+theorem node_summarized (lang : Lang) (d : NodeData) (c : Tree) (rest : List Tree) (h : NodeOK lang d (c :: rest))
+    (hk : SummarizedL lang (c :: rest)) : Summarized lang (.mk d (c :: rest)) := by
+  unfold Summarized; exact ⟨fun h => by simp at h, fun _ => h, hk⟩
+theorem cwLeaf_summarized : Summarized C02.demoLang cwLeaf := leaf_summarized _ _ (by unfold LeafOK; decide)
+theorem pvRoot_summarized : Summarized C02.demoLang pvRoot.t := by
+  have hl := cwLeaf_summarized
+  have hv : Summarized C02.demoLang pvV := node_summarized _ _ _ _ (by unfold NodeOK; decide) (by unfold SummarizedL SummarizedL; exact ⟨hl, trivial⟩)
+  have hh : Summarized C02.demoLang pvH := node_summarized _ _ _ _ (by unfold NodeOK; decide) (by unfold SummarizedL SummarizedL SummarizedL; exact ⟨hv, hl, trivial⟩)
+  exact node_summarized _ _ _ _ (by unfold NodeOK; decide) (by unfold SummarizedL SummarizedL SummarizedL SummarizedL; exact ⟨hl, hh, hl, trivial⟩)
+theorem pvRoot_shape : shapeOK none pvRoot.t = true := by decide
+
+/-- the visible rule `v` (first child of the hidden `h`) -/
+def pvVRef : NodeRef := { t := pvV, alias := 0, id := 1984, start := ⟨1, ⟨0, 1⟩⟩ }
+
+/-- All hypotheses hold on the demo tree and the theorem computes: the next sibling of `v` (child
+of the hidden `h`) is the leaf `c` that follows it inside `h`; the next sibling of `c` — the LAST
+child of `h`, which therefore ends where `h` ends — is the leaf `d` that follows `h` in the root. -/
+example : (nextSiblingPort C02.demoLang 8 pvRoot pvVRef true).map (fun r => (r.t, r.alias)) = some (cwLeaf, 0) := by
+  rw [next_sibling_spec_from_root C02.demoLang 8 pvRoot pvVRef [1, 0] [1, 0] none (by simp) (by simp) pvRoot_sized rfl
+    (by decide) (by decide) (by decide) (by simp) (by decide) pvRoot_summarized pvRoot_shape rfl (by decide)]
+  rfl
+example : (nextSiblingPort C02.demoLang 8 pvRoot pvC true).map (fun r => (r.t, r.alias)) = some (cwLeaf, 0) := by
+  rw [next_sibling_spec_from_root C02.demoLang 8 pvRoot pvC [1, 1] [1, 1] none (by simp) (by simp) pvRoot_sized rfl
+    (by decide) (by decide) (by decide) (by simp) (by decide) pvRoot_summarized pvRoot_shape rfl (by decide)]
+  rfl
+example : laterOnPath C02.demoLang pvRoot [1, 0] = [(cwLeaf, 0), (cwLeaf, 0)] := rfl
+
+
 end TsVerif.C06
